@@ -320,6 +320,42 @@ class C17(Prop):
         return out
 
 
+    def scenarios(self, rng, tier):
+        """Stored data keeps its meaning across builds: bytes written by the pinned build for
+        every derived unit, and every shipped fact, must decode with the build under test to
+        the unit of the same name (pinned/*.tsv, recorded by tools/mkpinned.py)."""
+        fails, n, ok = [], 0, 0
+        rows = [l.split("\t") for l in (C.VERIF / "pinned" / "unit_bytes.tsv").read_text().splitlines() if l]
+        rc, dec, err = C.run_lines(C.harness_bin(False), [f"cbor deunitname {r[3]}" for r in rows], watchdog=10)
+        for r, d in zip(rows, dec):
+            n += 1
+            f = d.split(" ")
+            if f[:2] == ["B", "OK"] and f[2] == r[2]:
+                ok += 1
+            else:
+                got = C.unhex(f[2]) if len(f) > 2 else d
+                fails.append((f"stored-unit:{r[0]}", f"cbor deunitname {r[3]}",
+                              f"bytes written for unit {r[0]} ({C.unhex(r[2])!r}, id {r[1]}) by the pinned build now decode as {got!r}"))
+        pinned = [l.split("\t") for l in (C.VERIF / "pinned" / "facts.tsv").read_text().splitlines() if l]
+        now = {}
+        for f in dump_facts():
+            if "raw" in f:
+                r = f["raw"]
+                now[(r[6], r[1], r[4])] = (r[2], r[7] if len(r) > 7 else "?")
+        for (fname, toks, value, unit, desc) in pinned:
+            n += 1
+            got = now.get((fname, toks, desc))
+            if got == (value, unit):
+                ok += 1
+            else:
+                words = " ".join(C.unhex(t) for t in toks.split(";")) if toks != "-" else ""
+                fails.append((f"shipped-fact:{fname}:{words}", words,
+                              f"shipped fact {C.unhex(desc)!r} ({fname}) decoded as {value} {C.unhex(unit) if unit != '-' else ''} by the pinned build, now "
+                              + (f"{got[0]} {C.unhex(got[1]) if got[1] not in ('-', '?') else got[1]}" if got else "missing")))
+        return {"evaluations": n, "nontrivial": ok, "spec_fail": fails[:40], "dist": {"pinned-unit-bytes": len(rows), "pinned-shipped-facts": len(pinned)},
+                "samples": [{"input": f"cbor deunitname {rows[0][3]}", "implementation": dec[0] if dec else None}]}
+
+
 class C18(Prop):
     """Theorems (Props/C18.lean): the evaluator's results do not depend on the describe flag, the description log is exactly the successful lookups in evaluation order, and the model's database is immutable; correspondence: expressions mixing literals and fact phrases evaluated with and without descriptions and in varying orders against one database instance."""
     id = "C18"
